@@ -42,7 +42,7 @@ ASSUMPTIONS = [
     "the calling convention chosen by ppci is accepted as found in the binary's type section (u32 is carried in a wasm i64); a u32 result or "
     "argument must then be the zero-extended value",
     "external functions: deterministic stub on both sides (ints 3*sum(args)+1 wrapped to the result type, floats sum(args)+0.5)",
-    "a call that makes no progress for 1 s wall (20 s when re-run alone) although the reference run ended within <= 400 block steps is "
+    "a call that makes no progress for 1 s wall (6 s when re-run alone) although the reference run ended within <= 400 block steps is "
     "a hang; a hang/trap/mismatch is reported only when it reproduces on a fresh instance of a module holding that function alone",
     "c_to_ir(src, WasmArchitecture()) raises ValueError in api.get_arch (WasmArchitecture is not an `Architecture`); the C corpus is "
     "compiled with CBuilder(WasmArchitecture().info, COptions()) which is what c_to_ir does after get_arch",
@@ -54,7 +54,8 @@ CLAIM = {"text": "inside the stated bound every module that ir_to_wasm accepts i
 
 COMPILE_CPU_S = 30
 CALL_TIMEOUT_MS = 1000
-CONFIRM_TIMEOUT_MS = 20000
+CONFIRM_TIMEOUT_MS = 6000
+MAX_HANGS_PER_NODE = 8
 JOBS_PER_NODE = 400
 PURE_BATCH = 49
 CFG_BATCH = 12
@@ -118,7 +119,7 @@ function hostFunction(spec, log) {
 }
 function isTrap(e) { return e instanceof WebAssembly.RuntimeError || e instanceof RangeError; }
 
-function runJob(job, skip, prog) {
+function runJob(job, skip, prog, capped) {
   const bytes = Buffer.from(job.wasm, 'base64');
   const res = { valid: false, stage: 'validate', error: null, calls: [] };
   if (!WebAssembly.validate(bytes)) {
@@ -146,6 +147,7 @@ function runJob(job, skip, prog) {
     const c = calls[i], r = {};
     if (skip && skip.includes(i)) { r.hang = true; dead.add(c.f); res.calls.push(r); continue; }
     if (dead.has(c.f)) { r.skipped = true; res.calls.push(r); continue; }
+    if (capped) { r.skipped = true; r.capped = true; res.calls.push(r); continue; }
     Atomics.store(prog, 1, i); Atomics.add(prog, 2, 1);
     const before = log.length;
     try {
@@ -171,13 +173,13 @@ function runJob(job, skip, prog) {
 }
 
 if (!wt.isMainThread) {
-  const { jobs, base, hangs, sab } = wt.workerData;
+  const { jobs, base, hangs, sab, capped } = wt.workerData;
   const prog = new Int32Array(sab);
   for (let k = 0; k < jobs.length; k++) {
     const j = base + k;
     Atomics.store(prog, 0, j); Atomics.store(prog, 1, -1); Atomics.add(prog, 2, 1);
     let res;
-    try { res = runJob(jobs[k], hangs[j] || null, prog); } catch (e) { res = { valid: false, stage: 'driver', error: String(e && e.stack || e), calls: [] }; }
+    try { res = runJob(jobs[k], hangs[j] || null, prog, capped); } catch (e) { res = { valid: false, stage: 'driver', error: String(e && e.stack || e), calls: [] }; }
     wt.parentPort.postMessage({ j, res });
   }
   wt.parentPort.postMessage({ done: true });
@@ -187,13 +189,14 @@ if (!wt.isMainThread) {
   process.stdin.on('data', d => { input += d; });
   process.stdin.on('end', async () => {
     const req = JSON.parse(input);
-    const jobs = req.jobs, T = req.call_timeout_ms || 4000;
+    const jobs = req.jobs, T = req.call_timeout_ms || 4000, maxHangs = req.max_hangs || 8;
+    let nHangs = 0;
     const results = new Array(jobs.length).fill(null);
     const hangs = {};
     const runFrom = (start) => new Promise(resolve => {
       const sab = new SharedArrayBuffer(16), prog = new Int32Array(sab);
       prog[0] = start; prog[1] = -1; prog[2] = 0;
-      const w = new wt.Worker(__filename, { workerData: { jobs: jobs.slice(start), base: start, hangs, sab } });
+      const w = new wt.Worker(__filename, { workerData: { jobs: jobs.slice(start), base: start, hangs, sab, capped: nHangs >= maxHangs } });
       let last = -1, lastChange = Date.now(), finished = false;
       const timer = setInterval(() => {
         if (finished) return;
@@ -205,7 +208,7 @@ if (!wt.isMainThread) {
           const j = Atomics.load(prog, 0), i = Atomics.load(prog, 1);
           w.terminate().then(() => {
             if (i < 0) { results[j] = { valid: false, stage: 'driver-hang', error: 'no progress before the first call', calls: [] }; resolve(j + 1); }
-            else { (hangs[j] = hangs[j] || []).push(i); resolve(j); }
+            else { (hangs[j] = hangs[j] || []).push(i); nHangs++; resolve(j); }
           });
         }
       }, 50);
@@ -248,7 +251,7 @@ def node_run(jobs, driver, timeout_ms=CALL_TIMEOUT_MS):
     for i in range(0, len(jobs), JOBS_PER_NODE):
         chunk = jobs[i:i + JOBS_PER_NODE]
         try:
-            r = subprocess.run([NODE, driver], input=json.dumps({"jobs": chunk, "call_timeout_ms": timeout_ms}).encode(), capture_output=True, timeout=7200)
+            r = subprocess.run([NODE, driver], input=json.dumps({"jobs": chunk, "call_timeout_ms": timeout_ms, "max_hangs": MAX_HANGS_PER_NODE}).encode(), capture_output=True, timeout=7200)
         except subprocess.TimeoutExpired:
             raise NodeFailure("node did not finish a batch of %d jobs" % len(chunk))
         if r.returncode != 0:
@@ -944,6 +947,9 @@ def judge(p, pr, res, findings, base_order):
         rec = rcalls[idx]
         nprev = executed.get(ci, 0)
         executed[ci] = nprev + 1
+        if rec.get("capped"):
+            p.count("calls_not_executed_hang_cap")
+            continue
         if ci in diverged or "skipped" in rec:
             p.count("calls_not_compared_after_divergence")
             continue
@@ -1316,6 +1322,9 @@ def run(ctx):
                         "invalid": c.get("invalid_irreducible", 0)}})
     if c.get("node_batch_failures"):
         raise HarnessError("node driver failed: %s" % sorted(ctx.sets.get("unclassified", ()))[:3])
+    if c.get("calls_not_executed_hang_cap"):
+        ctx.cap("%d calls were not executed: after %d non-terminating calls in one node process the remaining calls of that process are skipped "
+                "(the tree under test mistranslates loops wholesale)" % (c["calls_not_executed_hang_cap"], MAX_HANGS_PER_NODE))
     if c.get("harness_wasm_reader_failed") or c.get("harness_build_errors"):
         ctx.cap("%d modules could not be built or read by the harness" % (c.get("harness_wasm_reader_failed", 0) + c.get("harness_build_errors", 0)))
 
